@@ -117,3 +117,74 @@ package rostrconv
 //@   ensures [passes-the-item-and-the-operator-parameters|C18] arg(call.ParseUint, 0) == v && arg(call.ParseUint, 1) == base && arg(call.ParseUint, 2) == bitSize
 //@   ensures [returns-its-results|C18] result0 == res(call.ParseUint, 0) && result1 == res(call.ParseUint, 1)
 
+// The operators themselves: each is one ro.Map / ro.MapErr / ro.Filter around its lambda.
+
+//@ func Atoi
+//@   note the operator is the lift of its own lambda (Atoi$1 above) by ro.MapErr and of nothing else
+//@   props C18
+//@   maypanic
+//@   track call.*
+//@   ensures [is-the-lift-of-its-own-lambda|C18] count(call.ANY) == 1 && called(call.MapErr)
+
+//@ func FormatComplex
+//@   note the operator is the lift of its own lambda (FormatComplex$1 above) by ro.Map and of nothing else
+//@   props C18
+//@   maypanic
+//@   track call.*
+//@   ensures [is-the-lift-of-its-own-lambda|C18] count(call.ANY) == 1 && called(call.Map)
+
+//@ func FormatFloat
+//@   note the operator is the lift of its own lambda (FormatFloat$1 above) by ro.Map and of nothing else
+//@   props C18
+//@   maypanic
+//@   track call.*
+//@   ensures [is-the-lift-of-its-own-lambda|C18] count(call.ANY) == 1 && called(call.Map)
+
+//@ func FormatInt
+//@   note the operator is the lift of its own lambda (FormatInt$1 above) by ro.Map and of nothing else
+//@   props C18
+//@   maypanic
+//@   track call.*
+//@   ensures [is-the-lift-of-its-own-lambda|C18] count(call.ANY) == 1 && called(call.Map)
+
+//@ func FormatUint
+//@   note the operator is the lift of its own lambda (FormatUint$1 above) by ro.Map and of nothing else
+//@   props C18
+//@   maypanic
+//@   track call.*
+//@   ensures [is-the-lift-of-its-own-lambda|C18] count(call.ANY) == 1 && called(call.Map)
+
+//@ func ParseBool
+//@   note the operator is the lift of its own lambda (ParseBool$1 above) by ro.MapErr and of nothing else
+//@   props C18
+//@   maypanic
+//@   track call.*
+//@   ensures [is-the-lift-of-its-own-lambda|C18] count(call.ANY) == 1 && called(call.MapErr)
+
+//@ func ParseFloat
+//@   note the operator is the lift of its own lambda (ParseFloat$1 above) by ro.MapErr and of nothing else
+//@   props C18
+//@   maypanic
+//@   track call.*
+//@   ensures [is-the-lift-of-its-own-lambda|C18] count(call.ANY) == 1 && called(call.MapErr)
+
+//@ func ParseInt
+//@   note the operator is the lift of its own lambda (ParseInt$1 above) by ro.MapErr and of nothing else
+//@   props C18
+//@   maypanic
+//@   track call.*
+//@   ensures [is-the-lift-of-its-own-lambda|C18] count(call.ANY) == 1 && called(call.MapErr)
+
+//@ func ParseUint
+//@   note the operator is the lift of its own lambda (ParseUint$1 above) by ro.MapErr and of nothing else
+//@   props C18
+//@   maypanic
+//@   track call.*
+//@   ensures [is-the-lift-of-its-own-lambda|C18] count(call.ANY) == 1 && called(call.MapErr)
+
+//@ func ParseUint64
+//@   note the operator is the lift of its own lambda (ParseUint64$1 above) by ro.MapErr and of nothing else
+//@   props C18
+//@   maypanic
+//@   track call.*
+//@   ensures [is-the-lift-of-its-own-lambda|C18] count(call.ANY) == 1 && called(call.MapErr)
